@@ -271,7 +271,8 @@ def r03_5(ctx, fx):
     """re-entrancy of the negotiation futures: they take the state out with mem::replace(state, Done); whenever an arm returns
     Pending it must park the *same* state variant again, otherwise the next poll repeats (or skips) a step - e.g. a proposal is
     put on the wire twice"""
-    for key, adt, who in ((D, "dialer_select::State", "dialer"), (L, "listener_select::State", "listener")):
+    for key, adt, who in ((D, "dialer_select::State", "dialer"), (L, "listener_select::State", "listener"),
+                          ("multistream_select::negotiated::Negotiated::<TInner>::poll", "negotiated::State", "negotiated")):
         fn = ctx.fn(fx, key, "R03.5")
         if fn is None:
             continue
@@ -281,7 +282,7 @@ def r03_5(ctx, fx):
         pend = [n for n, sh in fn.exits() if any(x.startswith("Pending") for x in sh)]
         for sw in sws[:1]:
             for var in list(sw[3].keys()) + list(sw[5]):
-                if var == "Done":
+                if var in ("Done", "Invalid"):
                     continue
                 e = fn.variant_edges(sw, var)
                 starts = [n for n, l in fn.succs(sw[0]) if l in e]
@@ -295,7 +296,7 @@ def r03_5(ctx, fx):
                 ctx.ob("R03.5", "%s/%s:Pending-parks-the-same-state" % (who, var), w is None, site=fn.site(sw[0]), cfg=fx.cfg,
                        detail="a path from the %s arm to Poll::Pending that does not re-create State::%s: %s" % (var, var, fn.path_sites(w) if w else None))
                 # and no *other* variant is parked on the way to Pending
-                others = [n for v2 in list(sw[3].keys()) + list(sw[5]) if v2 not in (var, "Done") for n, st in fn.aggregates(re.escape(adt) + "$", v2)]
+                others = [n for v2 in list(sw[3].keys()) + list(sw[5]) if v2 not in (var, "Done", "Invalid") for n, st in fn.aggregates(re.escape(adt) + "$", v2)]
                 bad = []
                 for o in others:
                     if o in reach and any(p2 in fn.reach([o], after=True, avoid=restore + [h.node for h in heads]) for p2 in ps):
